@@ -164,6 +164,15 @@ let () =
               (match unflatten (flatten regs.(reg r)) with
                | Ok m -> regs.(reg r) <- m; true
                | _ -> false)
+          | ["pad"; r; name; target] ->
+              (* one raw item of the length that makes flattened_size equal to the target, if reachable *)
+              let nm = bytes_of_hex name and tg = int_of_string target in
+              let (trial, ok) = step regs.(reg r) (OAdd (false, nm, tc_raw, IRaw [])) in
+              if ok && tg <= (1 lsl 26) && int_of_n (flattened_size trial) <= tg then begin
+                let n = tg - int_of_n (flattened_size trial) in
+                let pb = List.init n (fun i -> byte_tab.((i * 7 + 3) land 255)) in
+                apply (reg r) (OAdd (false, nm, tc_raw, IRaw pb)) end
+              else false
           | ["mf"; r; name] -> apply (reg r) (OMoveToFront (bytes_of_hex name))
           | ["mb"; r; name] -> apply (reg r) (OMoveToBack (bytes_of_hex name))
           | ["cn"; r; o; nw] -> apply (reg r) (OCopyName (bytes_of_hex o, bytes_of_hex nw))
@@ -183,6 +192,8 @@ let () =
         Printf.printf "%d B %s\n" k (hex_of (spec_msg m0));
         Printf.printf "%d FR %s\n" k (hex_of (takeN (n_of_int 8) (frame enc_default (spec_msg m0))));
         Printf.printf "%d CCT %s\n" k (cct (strip_msg m0));
+        if head = "wg" then
+          Printf.printf "%d GS %s\n" k (hex_of (frame enc_default (spec_msg m0) @ frame enc_default (spec_msg m1) @ frame enc_default (spec_msg m0)));
         (match unflatten (spec_msg m0) with
          | Ok u -> if head <> "wn" && u <> rt m0 then Printf.printf "%d ORACLE FAIL model: unflatten (spec_msg m) <> rt m\n" k
          | _ -> Printf.printf "%d ORACLE FAIL model: the parser model rejects spec_msg m\n" k)
